@@ -102,6 +102,9 @@ class LayerInterp(VecInterp):
         st = w.setdefault("tls", {})
         if key not in st:
             payload = tls_keys(self.F).get(key, "")
+            if re.search(r"^core::cell::RefCell<zstd_safe::[CD]Ctx\b", payload):
+                st[key] = {"__refcell": {"__zctx": 1}, "borrowed": 0}      # an opaque compression context (its parameters are D8's business)
+                return st[key]
             if payload.startswith("core::cell::once::OnceCell<"):
                 st[key] = {"__oncecell": None}          # set once per thread, then read for ever
                 w.setdefault("tls_used", set()).add(key)
@@ -137,7 +140,52 @@ class LayerInterp(VecInterp):
                 raise Undecidable("zstd entry point on something that is not a byte vector")
             if self.world is not None:
                 self.world.setdefault("zstd_calls", []).append((c.rsplit("::", 1)[-1], list(data)))
-            return ok(list(data))
+            # first the body itself, with the library's primitives taken as a lossless pair (compress = copy into the destination,
+            # decode = copy): scratch buffers and thread-locals around the primitives are then part of the evaluation
+            try:
+                return VecInterp.do_call(self, t)
+            except Undecidable as e:
+                if self.world is not None:
+                    self.world.setdefault("zstd_body_undecided", set()).add(str(e))
+                return ok(list(data))
+        if re.search(r"^zstd_safe::compress_bound$", c):
+            n_ = self.target(self.operand(t["args"][0]))
+            if not isinstance(n_, int):
+                raise Undecidable("compress_bound of a non-integer")
+            return n_ + 64
+        if re.search(r"^zstd_safe::CCtx::<'\w+>::(compress|compress2)$", c):
+            a_ = [self.target(self.operand(x)) for x in t["args"]]
+            dst, src = a_[1], a_[2]
+            if not (isinstance(dst, list) and isinstance(src, list)):
+                raise Undecidable("zstd compress on unmodelled buffers")
+            n_ = len(src)
+            dst_is_vec = any(g.startswith("alloc::vec::Vec<") for g in (t.get("gargs") or []))
+            if len(dst) < n_:
+                if dst_is_vec:
+                    raise Undecidable("capacity of a vector shorter than the input is not tracked")
+                return {"__adt": "core::result::Result", "__var": "Err", 0: 70, "0": 70}      # dstSize_tooSmall
+            for i_ in range(n_):
+                dst[i_] = src[i_]
+            if dst_is_vec:
+                del dst[n_:]          # WriteBuf for Vec<u8>: the length becomes what was written
+            return ok(n_)
+        if re.search(r"^zstd_safe::[CD]Ctx::<'\w+>::(set_parameter|reset|load_dictionary|set_pledged_src_size)$", c):
+            return ok(0)
+        if re.search(r"^zstd::(stream::)?(functions::)?decode_all$|^zstd::bulk::decompress$", c):
+            src = self.target(self.operand(t["args"][0]))
+            if isinstance(src, dict) and "__reader" in src:
+                src = src["__reader"]
+            if not isinstance(src, list):
+                raise Undecidable("zstd decode of an unmodelled source")
+            return ok(list(src[:]))
+        if re.search(r"^zstd_safe::get_error_name$", c):
+            return "zstd error"
+        if re.search(r"core::result::Result::<T, E>::map_err$", c):
+            r_ = self.target(self.operand(t["args"][0]))
+            if isinstance(r_, dict) and r_.get("__adt") == "core::result::Result":
+                if r_.get("__var") == "Ok":
+                    return r_
+                return {"__adt": "core::result::Result", "__var": "Err", 0: "error value", "0": "error value"}
         if c.startswith("ragc_core::env_cache::"):
             f = self.F.funcs.get(c)
             if f is not None and f.d.get("ret", "bool") in ("bool", None) or c.rsplit("::", 1)[-1].startswith(("debug_", "trace_", "test_", "assert_verbose")):
@@ -200,7 +248,8 @@ class LayerInterp(VecInterp):
             r = self.target(self.operand(t["args"][0]))
             if isinstance(r, dict) and r.get("__adt") == "core::result::Result":
                 if r["__var"] == "Ok":
-                    return {"__adt": "core::ops::control_flow::ControlFlow", "__var": "Continue", 0: r.get(0), "0": r.get(0)}
+                    v_ = r.get(0, r.get("0"))
+                    return {"__adt": "core::ops::control_flow::ControlFlow", "__var": "Continue", 0: v_, "0": v_}
                 return {"__adt": "core::ops::control_flow::ControlFlow", "__var": "Break", 0: r, "0": r}
             raise Undecidable("? on %r" % (r,))
         if t.get("decl", "").endswith("ops::try_trait::FromResidual::from_residual"):
